@@ -157,6 +157,7 @@ fn leaf_tokens() -> Vec<Tok> {
         Tok::lit("a"),
         Tok::Sep,
         Tok::Zom { lazy: false },
+        Tok::Zom { lazy: true },
         Tok::Tree { lead: false, trail: false },
         Tok::Tree { lead: true, trail: false },
     ]
@@ -207,7 +208,7 @@ impl Enum {
                     else {
                         for rest in &en.concats[s - k] {
                             // directly adjacent zero-or-more wildcards do not lex as two tokens
-                            if t.is_zom() && rest[0].is_zom() {
+                            if matches!((t, &rest[0]), (Tok::Zom { lazy: false }, Tok::Zom { lazy: false })) {
                                 continue;
                             }
                             let mut e = vec![t.clone()];
@@ -252,7 +253,16 @@ fn gen_size_expr(t: &mut Tape) -> Expr {
         _ => 1,
     }).sum();
     let target: usize = t.pick(&[0xFFFFusize, 0x10000, 0x10001, 0x10004, 0xFFFC, 40000, 70000, 0x20000]);
-    let e: Expr = match t.below(8) {
+    let e: Expr = match t.below(9) {
+        8 => {
+            // the text written out: one literal leaf (or two, around a separator)
+            if t.chance(128) {
+                vec![Tok::lit(&"a".repeat(target))]
+            }
+            else {
+                vec![Tok::lit(&"a".repeat(target / 2)), Tok::Sep, Tok::lit(&"b".repeat(target - target / 2 - 1))]
+            }
+        },
         0 => vec![rep(unit, target / ulen)],
         1 => {
             // a repetition just below the target plus literal text that completes it
@@ -293,7 +303,7 @@ fn gen_size_expr(t: &mut Tape) -> Expr {
 }
 
 fn is_size_family(e: &Expr) -> bool {
-    any_tok(e, &|t, _| matches!(t, Tok::Rep { lo, .. } if *lo >= 100))
+    any_tok(e, &|t, _| matches!(t, Tok::Rep { lo, .. } if *lo >= 100) || matches!(t, Tok::Lit { text, .. } if text.len() >= 10000))
 }
 
 fn count_tree_leads(e: &Expr) -> usize {
@@ -314,7 +324,7 @@ impl Property for C06 {
     fn rule(&self) -> String {
         "rule-agnostic nested ASTs in the documented syntax (about half violate a rule) plus, per \
          generated E, the context variants E+`y{e,f}`, `{e,f}y`+E and `{E,q}`, plus a \
-         bounded-exhaustive enumeration of all shapes up to a size bound over {a, /, *, **-forms, \
+         bounded-exhaustive enumeration of all shapes up to a size bound over {a, /, *, $, **-forms, \
          {..}, {..,..}, <..:bounds>}, plus a size family (invariant text around the 64 KiB limit split between repetitions, literals, nested repetitions, branches, components and variant siblings); one evaluation = one expression judged by the reference rule \
          checker vs Glob::new; non-trivial = >= 2 branch tokens or a branch nested in a branch, and \
          a definite reference verdict; distinct by expression text"
@@ -454,7 +464,7 @@ impl Property for C06 {
                                     if counter % nthreads != ti {
                                         continue;
                                     }
-                                    if !rest.is_empty() && t.is_zom() && rest[0].is_zom() {
+                                    if !rest.is_empty() && matches!((t, &rest[0]), (Tok::Zom { lazy: false }, Tok::Zom { lazy: false })) {
                                         continue;
                                     }
                                     let mut e = vec![t.clone()];
